@@ -888,7 +888,8 @@ def transform_etas_john_draper(model: Model, list_of_etas: Optional[Union[list[s
 
 
 def _transform_etas(model, transformation, etas):
-    etas_assignment, etas_subs = _create_new_etas(etas, transformation.name)
+    used = {s.name for s in model.statements.free_symbols}
+    etas_assignment, etas_subs = _create_new_etas(etas, transformation.name, used)
     parameters, thetas = _create_new_thetas(model, transformation.theta_type, len(etas))
     transformation.apply(etas_assignment, thetas)
     statements_new = transformation.assignments
@@ -897,7 +898,7 @@ def _transform_etas(model, transformation, etas):
     return model
 
 
-def _create_new_etas(etas_original, transformation):
+def _create_new_etas(etas_original, transformation, used=frozenset()):
     etas_subs = {}
     etas_assignment = {}
     if transformation == 'boxcox':
@@ -908,9 +909,14 @@ def _create_new_etas(etas_original, transformation):
         eta_new = 'etad'
     else:
         eta_new = 'etan'
+    n = 0
     for i, eta in enumerate(etas_original, 1):
-        etas_subs[sympy.Symbol(eta)] = sympy.Symbol(f'{eta_new.upper()}{i}')
-        etas_assignment[sympy.Symbol(f'{eta_new}{i}')] = sympy.Symbol(f'{eta_new.upper()}{i}')
+        # Do not reuse the name of an eta transformed by an earlier call
+        n += 1
+        while f'{eta_new.upper()}{n}' in used:
+            n += 1
+        etas_subs[sympy.Symbol(eta)] = sympy.Symbol(f'{eta_new.upper()}{n}')
+        etas_assignment[sympy.Symbol(f'{eta_new}{i}')] = sympy.Symbol(f'{eta_new.upper()}{n}')
         etas_assignment[sympy.Symbol(f'eta{i}')] = sympy.Symbol(eta)
 
     return etas_assignment, etas_subs
